@@ -145,8 +145,8 @@ func checkC08(r *Run) {
 					for _, a := range c.Call.Args {
 						if a == prm || (f2 != fn && derivesFromParamCell(a, prm)) || loadsCellOf(a, prm) {
 							resolved = true
-							if f2 == fn {
-								resolver = c
+							if f2 == fn && resolver == nil && errResult(c) != nil {
+								resolver = c // the first table operation on this fid that can fail
 							}
 						}
 					}
